@@ -225,13 +225,13 @@ class C02(Check):
             'brace-wrapped strings, four spellings of the empty string, [n] vs <n>, letter case of structure names on '
             'rows and typedefs, interleaved tables, alternative number spellings, padded arrays, with/without #%yanny and '
             'final newline), read from a path, a text file object or a binary file object, normal and raw mode.  Extra '
-            'classes: structure names that are substrings of each other / equal to column names / one letter.  '
+            'classes: structure names that are substrings of each other / equal to column names / one letter; sequences of documents that reuse structure and column names with other declarations, read one after another in one process.  '
             'Non-trivial: >=2 layout freedoms active and >=1 row; distinct by (document, rendering) hash.')
     ASSUMPTIONS = ['typedef members are written one per line as "type name[dims];" (C style, as every SDSS file does); '
                    'comments inside typedef bodies contain no ; { } and not the word typedef',
                    'brace-wrapped strings carry no #, ", } and no edge blanks; pair values carry no #, quotes, edge blanks or {{}}',
                    'char[] columns have at least one non-empty value; a comment never ends with a backslash']
-    REQUIRED_COUNTERS = ('renderings_parsed', 'raw_mode_parses', 'binary_mode_parses', 'crlf_renderings',
+    REQUIRED_COUNTERS = ('same_names_other_types_reads', 'renderings_parsed', 'raw_mode_parses', 'binary_mode_parses', 'crlf_renderings',
                          'continuation_renderings', 'interleaved_renderings', 'hostile_comment_renderings',
                          'metamorphic_pairs', 'char_var_columns', 'enum_columns')
 
@@ -247,12 +247,13 @@ class C02(Check):
     def budget(self, tier):
         k = 1 if tier == 'quick' else 40
         return {'random_docs': 1500 * k, 'structname_torture': 400 * k, 'single_freedom': 600 * k,
-                'typedef_in_comment': 20 * k}
+                'typedef_in_comment': 20 * k, 'name_reuse': 150 * k}
 
     # ------------------------------------------------------------------ gen
-    def gen_doc(self, rng, torture=False):
-        ntab = rng.randint(1, 3)
-        names = []
+    def gen_doc(self, rng, torture=False, like=None):
+        """like: another document whose structure names and column names are reused (with freshly drawn types)."""
+        ntab = rng.randint(1, 3) if like is None else len(like['tables'])
+        names = [] if like is None else [t['name'] for t in like['tables']]
         if torture:
             base = M.ident(rng, 1, 3, suffix=False).upper()
             cand = [base, base + M.ident(rng, 1, 2, suffix=False).upper(), rng.choice('OUIDTNSRAE'), 'X' + base,
@@ -279,8 +280,11 @@ class C02(Check):
         for ti, nm in enumerate(names):
             cols = []
             used = set()
-            for _ in range(rng.randint(1, 6)):
-                cn = M.ident(rng)
+            likecols = None if like is None else [c['name'] for c in like['tables'][ti]['cols']]
+            for ci_like in range(rng.randint(1, 6) if likecols is None else len(likecols)):
+                cn = M.ident(rng) if likecols is None else likecols[ci_like]
+                if likecols is not None:
+                    used.discard(cn.lower())
                 if torture and rng.random() < 0.3:
                     cn = rng.choice(names).lower() if rng.random() < 0.5 else rng.choice(names)
                 if cn.lower() in used or cn.lower() in M.KEYWORDS or cn.upper() == nm:
@@ -353,6 +357,25 @@ class C02(Check):
                 'crlf', 'no_final_newline', 'blank_and_comment_lines', 'brace_strings']
 
     def gen(self, cls, rng, i):
+        if cls == 'name_reuse':
+            # several documents read one after another in the same process that reuse structure and column names with
+            # different declarations (files of the same kind from different software versions): nothing may leak from one
+            # read into the next
+            a = self.gen_doc(rng)
+            a['enums'] = {}
+            for t in a['tables']:
+                for c in t['cols']:
+                    if c['type'] not in NPT and c['type'] != 'char':
+                        c['type'] = 'int'
+                        c['alen'] = 0
+                        t['rows'] = [[(7 if cc is c else v) for cc, v in zip(t['cols'], r)] for r in t['rows']]
+            b = self.gen_doc(rng, like=a)
+            seq = [a, b, a] if rng.random() < 0.5 else [b, a, b]
+            docs = []
+            for d in seq:
+                R = Renderer(rng.getrandbits(32), {'blank_runs', 'trailing_comment'})
+                docs.append({'doc': d, 'text': R.render(d), 'mode': rng.choice(['path', 'text', 'binary']), 'raw': rng.random() < 0.3})
+            return {'kind': cls, 'sequence': docs}
         doc = self.gen_doc(rng, torture=(cls == 'structname_torture'))
         rend = []
         for k in range(2):
@@ -477,6 +500,15 @@ class C02(Check):
                                    '%s:%s.%s[%d] got %r expected %r' % (where, nm, c['name'], ri, gg, e))
 
     def run(self, case, out):
+        if case['kind'] == 'name_reuse':
+            for k, d in enumerate(case['sequence']):
+                r = {'text': d['text'], 'mode': d['mode'], 'raw': d['raw'], 'freedoms': []}
+                y = self.parse(r)
+                self.compare(out, y, d['doc'], d['raw'], 'read%d-of-sequence[%s%s]' % (k, d['mode'], ',raw' if d['raw'] else ''))
+                out.count('renderings_parsed')
+                out.count('same_names_other_types_reads')
+            out.nontrivial = True
+            return
         doc = case['doc']
         parsed = []
         for k, r in enumerate(case['renderings']):
@@ -522,6 +554,8 @@ class C02(Check):
         out.info['freedoms'] = [r['freedoms'] for r in case['renderings']]
 
     def summarise(self, case):
+        if case['kind'] == 'name_reuse':
+            return {'kind': case['kind'], 'texts': [d['text'][:500] for d in case['sequence']]}
         return {'kind': case['kind'], 'doc_tables': [(t['name'], [(c['name'], c['type'], c['alen'], c['clen']) for c in t['cols']], t['rows'][:2])
                                                      for t in case['doc']['tables'][:2]],
                 'pairs': case['doc']['pairs'], 'rendering0': case['renderings'][0]['text'][:1200],
